@@ -23,6 +23,8 @@ def run(ctx: Ctx) -> None:
     # the thread-based browser with a listener that is slow, real threads (props/syncapi.py, Trace_SyncApi.tla)
     from props import syncapi
     syncapi.run(ctx, 'C04')
+    # a population larger than any per-name table a 'reasonable' limit would allow (Oracle_C04Bulk.tla)
+    bulk(ctx)
     from props import cachemodel as cm
     mscs, by_id = cm.scenarios(ctx, ctx.pick(400, 6000), 'c04')
     traces = run_family(ctx, 'C04', scenarios(ctx) + mscs, {})
@@ -33,3 +35,75 @@ def replay(ctx: Ctx, path: str) -> None:
     import json
     sc = json.load(open(path))['replay']['scenario']
     run_family(ctx, 'C04', [sc, sc], {})
+
+
+def bulk_history(n: int) -> dict:
+    """N instances of one type announced to a host with a browser, then a third of them withdrawn (virtual time, one host)."""
+    import asyncio
+    from vf import simnet, wire
+    from zeroconf import ServiceListener
+    from zeroconf.asyncio import AsyncServiceBrowser
+    type_ = '_bulk._tcp.local.'
+    out: dict = {'n': n, 'added': [], 'seen': [], 'removed': [], 'cached1': [], 'cached2': [], 'withdrawn': []}
+
+    def num(name: str) -> int:
+        try:
+            return int(name.split('.')[0].split('-')[1])
+        except (IndexError, ValueError):
+            return 0
+
+    async def main(net: simnet.Net) -> None:
+        h = await net.add_host('h', '10.0.0.1')
+
+        class L(ServiceListener):
+            def add_service(self, zc, t, name):            # type: ignore[no-untyped-def]
+                out['added'].append(num(name))
+                if zc.cache.current_entry_with_name_and_alias(t, name) is not None:
+                    out['seen'].append(num(name))
+
+            def remove_service(self, zc, t, name):         # type: ignore[no-untyped-def]
+                out['removed'].append(num(name))
+
+            def update_service(self, zc, t, name):         # type: ignore[no-untyped-def]
+                pass
+        br = AsyncServiceBrowser(h.zc, [type_], listener=L())
+        await net.sleep_until(1000)
+        per = 40
+        for k in range(0, n, per):
+            recs = [(type_, wire.T_PTR, 1, 4500, 'Device-%d.%s' % (i + 1, type_)) for i in range(k, min(n, k + per))]
+            h.inject(wire.build(flags=0x8400, answers=recs), src='10.0.0.9')
+            await net.sleep_until(1000 + (k // per + 1) * 1100)
+        t = 1000 + (n // per + 2) * 1100
+
+        def cached() -> list:
+            return sorted({num(r.alias) for r in h.zc.cache.get_all_by_details(type_, wire.T_PTR, 1)})
+        out['cached1'] = cached()
+        gone = [i for i in range(1, n + 1) if i % 3 == 0]
+        out['withdrawn'] = gone
+        for k in range(0, len(gone), per):
+            recs = [(type_, wire.T_PTR, 1, 0, 'Device-%d.%s' % (i, type_)) for i in gone[k:k + per]]
+            h.inject(wire.build(flags=0x8400, answers=recs), src='10.0.0.9')
+            t += 1100
+            await net.sleep_until(t)
+        out['cached2'] = cached()
+        await br.async_cancel()
+        await h.aiozc.async_close()
+    net = simnet.Net(seed=1)
+    net.run(main(net), limit_ms=3600 * 1000)
+    return out
+
+
+def bulk(ctx: Ctx) -> None:
+    from vf import tlc
+    n = ctx.pick(1100, 2500)
+    h = bulk_history(n)
+    res = tlc.run_oracle('Oracle_C04Bulk', 'Oracle_C04Bulk', h, 'c04bulk')
+    for v in res['verdicts']:
+        if not v[2]:
+            ctx.report('%s/bulk' % v[3], '%s: %d instances of one type announced in datagrams of 40 pointers, a third withdrawn: Added %d (seen in the '
+                       'cache from the callback: %d), cached %d, Removed %d of %d, cached afterwards %d' % (
+                           v[3], n, len(h['added']), len(h['seen']), len(h['cached1']), len(h['removed']), len(h['withdrawn']), len(h['cached2'])),
+                       {'bulk': {k: (v2 if not isinstance(v2, list) else len(v2)) for k, v2 in h.items()}})
+    ctx.coverage['bulk'] = {'instances': n, 'withdrawn': len(h['withdrawn']), 'what': 'one browser, N instances of one type in datagrams of 40 pointer '
+                            'records, a third withdrawn; sets judged by TLC (Oracle_C04Bulk.tla)'}
+    ctx.log('bulk history: %d instances, %d added, %d removed' % (n, len(h['added']), len(h['removed'])))
